@@ -182,6 +182,8 @@ class Gen:
             pool = pool[:5] + self.globals[:2]       # parameters / locals named like globals
             self.feats.add("local-named-like-global")
         params = r.sample(pool, np_)
+        if params[0] not in LOCALS:          # the depth parameter keeps a plain local name (never written by anybody else)
+            params[0] = r.choice([x for x in LOCALS if x not in params])
         ndef = r.choice([0, 0, 1, 2, 3]) if np_ > 1 else 0
         ndef = min(ndef, np_ - 1)
         defaults = {}
@@ -227,11 +229,13 @@ class Gen:
         if o.reuse:
             # names this function does not declare: resolved in its callers' scopes by the implementation
             foreign = [x for x in LOCALS if x not in fn.params]
+            # (never a name some function uses as its depth parameter: recursion must stay bounded)
+            wforeign = [x for x in foreign if x not in self.depth_names]
             if r.random() < 0.6:
                 env["vis"] = env["vis"] + r.sample(foreign, min(2, len(foreign)))
                 self.feats.add("free-name-in-callee")
-            if r.random() < 0.4:
-                env["writable"] = env["writable"] + r.sample(foreign, 1)
+            if r.random() < 0.4 and wforeign:
+                env["writable"] = env["writable"] + r.sample(wforeign, 1)
                 self.feats.add("callee-writes-free-name")
         base = self.pure([x for x in env["vis"]], 1)
         body.append("(if (bin <= (v %d) 0) ((print 1 %s) (ret %s)) ())" % (d, " ".join("(v %d)" % p for p in fn.params), base))
@@ -261,12 +265,22 @@ class Gen:
             self.printer = 90
             texts.append("(F 90 long ((9 long)) ((print 1 (bin + 1000 (v 9))) (ret (v 9))))")
         self.fns = [self.function(i + 1, None) for i in range(nf)]
+        self.depth_names = set(fn.params[0] for fn in self.fns)
         texts += [self.function_text(fn) for fn in self.fns]
         pool = LOCALS if not o.reuse else LOCALS + self.globals[:2]
         env = {"vis": list(self.globals), "args_ok": list(self.globals), "mine": [], "writable": list(self.globals),
                "pool": list(pool), "declared": set()}
         calls_left = [r.randint(2, 6)]
-        main = self.body(None, env, r.randint(4, 9), 1, calls_left)
+        pre = []
+        if o.reuse and r.random() < 0.8:
+            # main owns most of the names the callees leave undeclared: they resolve to main's (or an
+            # intermediate caller's) locals instead of being reported
+            for x in r.sample(LOCALS, r.randint(4, 7)):
+                pre.append("(decl 0 0 long %d %s)" % (x, self.lit()))
+                env["declared"].add(x)
+                for l in ("vis", "args_ok", "mine"):
+                    env[l].append(x)
+        main = pre + self.body(None, env, r.randint(4, 9), 1, calls_left)
         # make sure main calls something, and shows its own variables afterwards (names declared inside
         # nested blocks of main are not visible here: only the top-level ones are used)
         top = []
@@ -362,9 +376,9 @@ def directed(rng, k):
         # mutual recursion a -> b -> a ..., locals of the same names at every level, a global counted on the way
         depth = r.choice([2, 5, 20, 50])
         fa = ("(F 1 long ((1 long) (2 long %d)) ((decl 0 0 long 3 (bin + (v 1) (v 2))) (casg + (v 50) 1) "
-              "(if (bin <= (v 1) 0) ((ret (v 3))) ()) (decl 0 0 long 4 (call 2 (bin - (v 1) 1))) (print 1 (v 3) (v 4)) (ret (bin + (v 3) (bin %% (v 4) 100))))" % r.randint(0, 9))
+              "(if (bin <= (v 1) 0) ((ret (v 3))) ()) (decl 0 0 long 4 (call 2 (bin - (v 1) 1))) (print 1 (v 3) (v 4)) (ret (bin + (v 3) (bin %% (v 4) 100)))))" % r.randint(0, 9))
         fb = ("(F 2 long ((1 long) (2 long %d) (3 long %d)) ((decl 0 0 long 4 (bin - (v 2) (v 3))) (casg + (v 50) 2) "
-              "(if (bin <= (v 1) 0) ((ret (v 4))) ()) (decl 0 0 long 5 (call 1 (bin - (v 1) 1) (v 4))) (print 1 (v 4) (v 5)) (ret (bin - (v 5) (v 4))))" % (r.randint(0, 9), r.randint(0, 9)))
+              "(if (bin <= (v 1) 0) ((ret (v 4))) ()) (decl 0 0 long 5 (call 1 (bin - (v 1) 1) (v 4))) (print 1 (v 4) (v 5)) (ret (bin - (v 5) (v 4)))))" % (r.randint(0, 9), r.randint(0, 9)))
         main = "(decl 0 0 long 3 1) (decl 0 0 long 4 2) (decl 0 0 long 5 (call 1 %d)) (print 1 (v 3) (v 4) (v 5) (v 50))" % depth
         return "(P ((G 0 long 50 () (0))) (%s %s) (%s))" % (fa, fb, main), "mutual-recursion-%d" % depth
     # the returned value reaches the caller unchanged: boundary values through `long` functions
